@@ -9,6 +9,7 @@ from spverif.core.util import attempt, exc_sig
 from spverif.ref import ccsds as H
 from spverif.ref.models import split_stream
 
+THOROUGH_SCALE = 8
 ID = "C13"
 LEVEL = "exploration"
 SHARDS = {"quick": 1, "thorough": 16}
